@@ -7,7 +7,7 @@ Init == l = 1
 StepCase(e)  == e.ev = "case"
 StepPair(e)  == e.ev = "pair" /\ Report(e.case, PairFails(e), [by |-> e.by, box0 |-> e.box0, box1 |-> e.box1, n0 |-> Len(e.map0), n1 |-> Len(e.map1)])
 \* a library call of this case panicked: the property promises a result for every input of its domain
-StepPanic(e) == e.ev = "panic" /\ Report(e.case, {"library_call_panicked"}, [msg |-> e.msg, loc |-> e.loc])
+StepPanic(e) == e.ev = "panic" /\ Report(e.case, {"library_call_panicked"}, [msg |-> e.msg, loc |-> e.loc, what |-> e.what])
 Next == /\ l <= NRec
         /\ LET e == Rec[l] IN StepCase(e) \/ StepPair(e) \/ StepPanic(e)
         /\ l' = l + 1
